@@ -5,7 +5,11 @@ serialisation layout) from the current sources; (2) Coq build of Properties_C19.
 + extracted model/equation checker; (4) random operation histories: after EVERY operation the
 complete per-node state of the C++ book is compared with the model and checked against the
 extracted defining equations; (5) finder = the equation checker on the C++ state (never the
-model) + classification of each failing equation from the previous/current C++ state.
+model) + classification of each failing equation from the previous/current C++ state.  After a
+reload of a complete file with no search pending the C++ state is also compared with the state
+before the reload (C19_reload_reproduces).  The tree contains fix df196fb (re-queueing in
+updateScores): the witness of C19_fixpoint_refuted is replayed on the implementation on every
+run and a stale path error is reported as a VIOLATION (regression).
 """
 import json
 import os
@@ -248,8 +252,12 @@ def run(ctx):
                         "harness/bookgraph_harness.cpp (computes the chess links with the real move generator)",
                         "hand-written model coq/BookGraph/BookGraph.v tied by correspondence"]
     ctx.assumptions = ["model = code is established by differential testing after every operation, not by proof",
-                       "C++ int arithmetic does not overflow (costs/path errors stay far below 2^31 in all runs)",
-                       "book graphs are acyclic (true while the half-move clock of every book position is < 100)"]
+                       "hypotheses of C19_fixpoint: chess inputs of every operation come from one acyclic successor "
+                       "relation with alternating side to move and are complete (true while the half-move clock of "
+                       "every book position is < 100; the harness computes them with the real move generator); no "
+                       "assert of the C++ code fails and no path error reaches INT_MAX (model error code, 0 in every "
+                       "run); a file that is read holds exactly one record per node",
+                       "C++ int arithmetic does not overflow (costs stay far below 2^31 in all runs)"]
     # (1) translate
     tx_ok, tx_log = translate(ctx)
     # (2) prove
